@@ -6,8 +6,26 @@ package retry
 
 import (
 	"context"
+	"sync/atomic"
 	"time"
 )
+
+// The C14 check also replaces, textually and in the scratch copy only, `time.Now()` by
+// `verifNow()` and `time.Since(` by `verifSince(` in this package's retry.go: the clock the retry
+// loop measures MaxElapsedTime with is the real one plus an offset that the harness advances by
+// every wait it records instead of sleeping.
+var verifOffset, verifReads atomic.Int64
+
+func verifNow() time.Time {
+	verifReads.Add(1)
+	return time.Now().Add(time.Duration(verifOffset.Load()))
+}
+
+func verifSince(t time.Time) time.Duration { return verifNow().Sub(t) }
+
+func VerifC14Advance(d time.Duration) { verifOffset.Add(int64(d)) }
+func VerifC14ResetClock()             { verifOffset.Store(0) }
+func VerifC14ClockReads() int64       { return verifReads.Load() }
 
 // VerifC14SetWait points the retry loop's wait at f; nil restores the real wait.
 func VerifC14SetWait(f func(context.Context, time.Duration) error) {
